@@ -486,6 +486,9 @@ impl C14 {
             out.oracle_fail(site, &what, json!({"ops": trace}));
         };
         let mut done: Vec<Value> = vec![];
+        // scheduling advice for the model: the streams in the order in which the runtime let them through
+        // `StreamQueue::push` in this op (connect: order of the OPEN frames; accept: order of the waiting slots)
+        let mut adv: Vec<Value> = vec![];
         let nsides = sess.sides.len();
         // pass 1: newly visible output of each mux (also resolves ids reserved for pending connect-opens)
         let mut new_out: Vec<Vec<WFrame>> = vec![];
@@ -512,6 +515,7 @@ impl C14 {
                                 if let Some(q) = s.pend_con.get_mut(cap) {
                                     if let Some(slot) = q.pop_front() {
                                         s.reserved.insert(slot, id);
+                                        adv.push(json!([si, 1, id]));
                                     }
                                 }
                             } else {
@@ -607,6 +611,9 @@ impl C14 {
                                 handover_off: sent_total,
                             });
                             done.push(json!([si, slot, "open", conn as u8, id]));
+                            if !conn {
+                                adv.push(json!([si, 0, id]));
+                            }
                         }
                     }
                     SlotSt::Held(h) => {
@@ -738,6 +745,7 @@ impl C14 {
         }
         obs.insert("held".into(), json!(held_counts));
         obs.insert("done".into(), Value::Array(done));
+        obs.insert("_adv".into(), Value::Array(adv));
         obs.insert("res".into(), json!(res));
         Value::Object(obs)
     }
@@ -1624,6 +1632,31 @@ impl<'a> G<'a> {
     }
 }
 
+/// Runs the generated operations once on the real code to learn, per op, in which order the runtime served the
+/// stream queues, and records it in the op line (`"adv"`): the model's scheduler follows this advice (it only
+/// chooses among interleavings its transition system allows; everything observable is still compared).
+fn annotate(ops: Vec<Value>, opts: &Opts) -> Vec<Value> {
+    let mut o2 = opts.clone();
+    o2.out = opts.out.join("gen-prerun");
+    let mut out = match Out::new(&o2) {
+        Ok(o) => o,
+        Err(_) => return ops,
+    };
+    let mut p = C14 { sess: None, trace: vec![] };
+    let mut res = vec![];
+    for mut op in ops {
+        let obs = p.exec(&op, &mut out);
+        if let Some(a) = obs["_adv"].as_array() {
+            if !a.is_empty() {
+                op["adv"] = Value::Array(a.clone());
+            }
+        }
+        res.push(op);
+    }
+    p.teardown();
+    res
+}
+
 fn gen_all(opts: &Opts) -> Vec<Value> {
     let mut rng: StdRng = opts.rng();
     let mut g = G::new(&mut rng);
@@ -1661,5 +1694,6 @@ fn gen_all(opts: &Opts) -> Vec<Value> {
             }
         }
     }
-    g.ops
+    let ops = std::mem::take(&mut g.ops);
+    annotate(ops, opts)
 }
